@@ -378,6 +378,14 @@ def run_funcfl(case, ctx, rng):
 
 # ------------------------------------------------------------------ Excel
 
+def excel_dest(case, ctx, tab_):
+  """The destination of the workbook rotates with the case: what write_tab() picks (BytesIO / open_fp onto an older file),
+  a file the caller opened in append mode, a file opened 'w+b'."""
+  d = ["default", "ab", "w+b", "default", "a+b"][case.get("style", 0) % 5]
+  ctx.cls("xlsx_destination:" + d)
+  return routes.write_tab(tab_) if d == "default" else routes.write_to_opened_file(tab_, d)
+
+
 def run_excel(case, ctx, rng):
   model, route = case["model"], case["route"]
   potable = not route.startswith("api")
@@ -412,12 +420,12 @@ def run_excel(case, ctx, rng):
     live = None
     if route == "api_class":
       tab_ = routes.pair_tab_api(model) if kind == "pair" else routes.eam_tab_api(model)
-      data = routes.write_tab(tab_)
+      data = excel_dest(case, ctx, tab_)
       live = tab_.workbook
     elif route == "potable":
       text_ = emit.model_text(model, emit.Style(rng))
       tab_ = routes.read_config(text_)
-      data = routes.write_tab(tab_)
+      data = excel_dest(case, ctx, tab_)
       live = tab_.workbook
     else:
       data = potable_out(ctx, model, route, rng)
